@@ -8,7 +8,7 @@ def contract(lv):
         (old_range.end - old_range.start) <= u32::MAX || (new_range.end - new_range.start) <= u32::MAX,   // table cells are u32
     ensures
         err_post(*vstd::prelude::old(d), *final(d), res),
-        seg_post(*vstd::prelude::old(d), *final(d), old, old_range, new, new_range, LVL, fin::<D>(), res.is_ok()),
+        seg_post(*vstd::prelude::old(d), *final(d), old, old_range, new, new_range, LVL, false, fin::<D>(), res.is_ok()),
 '''.replace('LVL', lv)
 mt = o.find('fn make_table<Old, New>(')
 o.lines[mt:mt] = ghost('''
